@@ -449,7 +449,27 @@ func c03CheckOne(c *core.Ctx, idx int, pattern string, enumerated bool) {
 
 	// Witnesses and near misses, also through Match on a request, the way
 	// users reach the lazily compiled pattern.
-	for _, u := range c03Witnesses(c, pattern, matchCase) {
+	witnesses := c03Witnesses(c, pattern, matchCase)
+	if alone && c.Rng.Intn(2) == 0 {
+		// The same rule object is asked about host names first (a DNS-level
+		// engine and a web engine share rule objects): what it answers for
+		// URLs afterwards is still the mask language.
+		hosts := []string{"example.org", "adserver.example.com"}
+		for _, u := range witnesses[:min(len(witnesses), 4)] {
+			if h := hostOfCandidate(u); h != "" {
+				hosts = append(hosts, strings.ToLower(h))
+			}
+		}
+		w2 := w
+		w2.String = "hostname requests " + strings.Join(hosts, ", ")
+		c.Guard("NetworkRule.Match(hostname request)", nil, w2, func() {
+			for _, h := range hosts {
+				_ = r.Match(rules.NewRequestForHostname(h))
+			}
+		})
+		c.Event("rules_asked_about_host_names_first", 1)
+	}
+	for _, u := range witnesses {
 		if strings.ContainsAny(u, " \n") {
 			continue
 		}
